@@ -293,6 +293,30 @@ def hidden_state_sites(model: SrcModel, fn: FuncDef) -> List[Tuple[str, ast.AST,
                 out.append(("module-mutate", n, f"mutates module-level object '{root}': {norm(n, 80)}"))
             elif root in ("self", "cls") and long_lived and isinstance(n.func.value, (ast.Attribute, ast.Subscript)):
                 out.append(("self-mutate", n, f"mutates '{norm(n.func.value, 60)}' of a long-lived {fn.cls.name} instance: {norm(n, 80)}"))
+        # a container kept in a *class-level* attribute (one per process, shared by all - also short-lived - instances)
+        # that is filled or edited through self/cls: a cache that outlives the call (C10-r2)
+        if fn.cls is not None and fn.name not in ("__init__", "__new__"):
+            edited: Optional[ast.AST] = None
+            if isinstance(n, ast.Call) and isinstance(n.func, ast.Attribute) and n.func.attr in MUTATORS:
+                edited = n.func.value
+            elif isinstance(n, (ast.Assign, ast.AugAssign, ast.Delete)):
+                for t in (n.targets if isinstance(n, (ast.Assign, ast.Delete)) else [n.target]):
+                    if isinstance(t, ast.Subscript):
+                        edited = t.value
+            if edited is not None and _root_name(edited) in ("self", "cls"):
+                attr = _is_self_attr(edited)
+                ca = model.class_attr(fn.cls, attr) if attr else None
+                builds_container = isinstance(ca, (ast.Dict, ast.List, ast.Set, ast.ListComp, ast.DictComp, ast.SetComp)) or (
+                    isinstance(ca, ast.Call) and (dotted(ca.func) or "").split(".")[-1] in (
+                        "dict", "list", "set", "defaultdict", "OrderedDict", "WeakKeyDictionary", "WeakValueDictionary", "deque", "Counter", "ChainMap"))
+                rebound = attr is not None and any(
+                    isinstance(t_, ast.Attribute) and t_.attr == attr and isinstance(t_.value, ast.Name) and t_.value.id == "self"
+                    for c_ in model.mro(fn.cls.qualname) if c_ in model.classes
+                    for m_ in model.classes[c_].methods.values() if m_.name in ("__init__", "__attrs_post_init__", "__post_init__")
+                    for st_ in ast.walk(m_.node) if isinstance(st_, (ast.Assign, ast.AnnAssign))
+                    for t_ in (st_.targets if isinstance(st_, ast.Assign) else [st_.target]))
+                if builds_container and not rebound:
+                    out.append(("class-mutate", n, f"edits the class-level container '{attr}' of {fn.cls.name} (one object shared by all instances and calls): {norm(n, 80)}"))
         if isinstance(n, ast.Return) and isinstance(n.value, ast.Name) and is_module_var(n.value.id):
             v = mutables.get(n.value.id)
             if isinstance(v, (ast.Call, ast.Dict, ast.List, ast.Set)):
